@@ -20,7 +20,7 @@ from vp.run import Harness
 from specs import C02
 from specs.C03_header import translate_printf, W2H
 
-APR = r'\b(?:nlw_\.)?apr\((?:nlw_\.)?nm,'
+APR = r'\b(?:nlw_\.|this->)?apr\((?:nlw_\.|this->)?nm,'
 
 
 def apr_sub(where, least):
@@ -29,7 +29,7 @@ def apr_sub(where, least):
         if not body:
             return ''
         # apr(nm, fmt, ...): the File argument is part of the matched prefix
-        body, n = translate_printf(body, {}, where, pattern=APR, skip=0, letters=True)
+        body, n = translate_printf(body, {}, where, pattern=APR, skip=0, letters=True, libc=False)
         if n < least:
             raise extract.ExtractionError('%s: R22p translated %d apr calls, expected at least %d' % (where, n, least))
         return body
@@ -121,6 +121,166 @@ void harness(void) { vp_one = 1; { NLHeader a; h_in = a; } g_done = 0; g_open = 
                    stubs=['apr (R22p tokens)', 'feeder callbacks (ghost events)', 'WriteDefinedVariables (ghost event; its lines: C03.writer.StartDefVar)'])
 
 
+NLR = 'include/mp/nl-reader.h'
+
+
+def h_bounds_roundtrip(con):
+    """NLWriter2::WriteBndRangeOrCompl -> tokens -> the real NLReader::ReadBounds (one item): the handler receives the bounds that were given
+    to the writer, where the writer's own infinity convention applies (a bound <= -DBL_MAX / >= DBL_MAX is written as absent and read as
+    -inf / +inf), and for a complementarity entry the flags and the variable index that were given."""
+    from specs.C02_header import STREAM
+    from specs.C02_items import HANDLE2
+    parts = ['#include "mp_shim.h"\n#include <math.h>\n#include <float.h>\nint vp_one;\n' + C02.header_struct() + C02.HDR_CONSTS,
+             STREAM.replace('NLHeader h_in;', 'NLHeader h_in; struct { int num_vars; } header_;'), '''
+#define reader_ReportError(...) VP_THROW(ReadError)
+static double Infty(void) { return DBL_MAX; }          /* NLWriter2::Infty() (checked below against the source) */
+static double NegInfty(void) { return -Infty(); }
+double g_L, g_U; int g_k, g_cvar; int g_seen;
+static char reader_ReadChar(void) { __CPROVER_assert(vp_more(), "the reader finds the bound type"); return (char)g_tok[g_rd++]; }
+static double reader_ReadDouble(void) { __CPROVER_assert(vp_more(), "the reader finds the bound it expects on this line"); return g_tok[g_rd++]; }
+static int reader_ReadInt_int(void) { __CPROVER_assert(vp_more(), "the reader finds the complementarity flags"); return (int)g_tok[g_rd++]; }
+static int reader_ReadUInt(void) { __CPROVER_assert(vp_more(), "the reader finds the variable number"); double v = g_tok[g_rd++]; __CPROVER_assert(v >= 0 && v <= INT_MAX, "a variable number written by the writer is a non-negative int"); return (int)v; }
+static void reader_ReadTillEndOfLine(void) { ReadTillEndOfLine(); }
+enum { VAR = 0, CON = 1 };
+#define BoundHandler_TYPE %s
+enum { ComplInfo_INF_UB = 1, ComplInfo_INF_LB = 2 };   /* mp::ComplInfo (common.h) */
+static int bh_num_items(void) { return 1; }
+static void bh_SetBounds(int index, double lb, double ub) {
+  __CPROVER_assert(index == 0 && g_k <= 0, "one pair of bounds for the item that was written as bounds");
+  __CPROVER_assert(lb == (g_L <= -DBL_MAX ? -INFINITY : g_L), "the lower bound is read back as written (below -DBL_MAX: none)");
+  __CPROVER_assert(ub == (g_U >= DBL_MAX ? INFINITY : g_U), "the upper bound is read back as written (above DBL_MAX: none)");
+  g_seen++; }
+static void handler_OnComplementarity(int con_index, int var_index, int info) {
+  __CPROVER_assert(con_index == 0 && g_k > 0, "a complementarity entry for the item that was written as one");
+  __CPROVER_assert(var_index == g_cvar, "the complementing variable is read back as written");
+  __CPROVER_assert(info == (g_k & 3), "the bound flags of the complementing variable are read back as written");
+  g_seen++; }
+''' % ('CON' if con else 'VAR'),
+             Fn(W2H, r'void NLWriter2<Params>::WriteBndRangeOrCompl\(\s*File& nm,\s*double L, double U, int k, int cvar\)', 'void WriteBndRangeOrCompl(double L, double U, int k, int cvar)',
+                subst=[(r'.*', apr_sub('WriteBndRangeOrCompl', 3), -1)], label='mp::NLWriter2::WriteBndRangeOrCompl', nmatches=1),
+             Fn(NLR, r'void NLReader<Reader, Handler>::ReadBounds\(\)', 'void ReadBounds(void)',
+                subst=[(r'BoundHandler bh\(\*this\);', '', 1), (r'\bbh\.', 'bh_', -1), (r'BoundHandler::TYPE', 'BoundHandler_TYPE', 1),
+                       (r'ComplInfo\(flags & mask\)', '(flags & mask)', 1)] + HANDLE2,
+                label='mp::internal::NLReader::ReadBounds<BoundHandler>', inst='BoundHandler::TYPE=%s' % ('CON' if con else 'VAR'), nmatches=1), '''
+void harness(void) { vp_one = 1;
+  g_L = nondet_double(); g_U = nondet_double(); g_k = nondet_int(); g_cvar = nondet_int(); header_.num_vars = nondet_int(); g_seen = 0;
+  __CPROVER_assume(g_L == g_L && g_U == g_U);
+  __CPROVER_assume(g_k <= 0 || (BoundHandler_TYPE == CON && g_cvar >= 0 && g_cvar < header_.num_vars));   /* complementarity: constraints only, with a variable of the model */
+  g_nt = 0; g_wline = 0; VP_EOL();                          /* the segment line (b / r) has been written */
+  WriteBndRangeOrCompl(g_L, g_U, g_k, g_cvar);              /* writer: one item */
+  g_rd = 0; g_rline = 0;
+  ReadBounds();                                             /* reader: one item */
+  __CPROVER_assert(g_seen == 1 && g_rd == g_nt, "the item was delivered once and every number written was consumed");
+  VP_REACH("end");
+}
+''']
+    return Harness('C03.writer.bounds.roundtrip.%s' % ('con' if con else 'var'), 'C03', parts, plain=True, flags=['--unwind', '3'], timeout=900,
+                   stubs=['apr (R22p tokens; %g / %.16g = g_fmt shortest round-trip form, C03.g_fmt)', 'leaf readers over the token stream (C02.text.* / C02.binary.*)'],
+                   note='one item: the reader loop runs once (unwinding 3 is complete for num_items = 1)')
+
+
+def infty_check():
+    src = extract.blank_comments(extract.read_repo(W2H))
+    if not re.search(r'double NLWriter2<Params>::Infty\(\) const \{\s*return std::numeric_limits<double>::max\(\);', src):
+        raise extract.ExtractionError('NLWriter2::Infty() is no longer numeric_limits<double>::max(): the bounds round trip states it as DBL_MAX')
+
+
+W2 = 'nl-writer2/include/mp/nl-writer2.h'
+
+LINE_PRE = '''#include "mp_shim.h"
+int vp_one;
+#define assert(x) __CPROVER_assert(x, "assert(" #x ") of the source holds")
+/* what was written: tokens of the current line, number of completed lines, tokens of the first line when there are two */
+double g_lt[8]; int g_lc; int g_lines; double g_l1[8]; int g_l1c; const char *g_str;
+static void vp_tok(double v) { __CPROVER_assert(g_lc < 8, "at most eight tokens on one of these lines"); g_lt[g_lc++] = v; }
+#define VP_TOK(e) vp_tok((double)(e))
+#define VP_STR(e) (g_str = (e), vp_tok(-1.0))
+static void VP_EOL(void) { if (g_lines == 0) { for (int k = 0; k < 8; ++k) g_l1[k] = g_lt[k]; g_l1c = g_lc; g_lc = 0; } g_lines++; }
+#define LINE1(n) (g_lines >= 1 && g_l1c == (n))
+'''
+GHOST = 'g_lc, g_lines, g_l1c, g_str, __CPROVER_object_whole(g_lt), __CPROVER_object_whole(g_l1)'
+
+
+def h_line(name, file, anchor, proto, requires, ensures, subst=(), decl='', call='', label=None, ordinal=0, extra_assigns='', pre_subst=()):
+    """one writer function that writes one (or two) lines through apr: its tokens against what the NL reader expects on that line"""
+    fname = re.match(r'\w[\w \*]*?(\w+)\(', proto).group(1)
+    parts = [LINE_PRE, decl,
+             Fn(file, anchor, proto, ordinal=ordinal,
+                contract='__CPROVER_requires(g_lc == 0 && g_lines == 0 && (%s)) __CPROVER_ensures(%s) __CPROVER_assigns(%s%s)' % (requires, ensures, GHOST, extra_assigns),
+                subst=list(pre_subst) + [(r'.*', apr_sub(name, 1), -1), (r'\bnlw_\.', '', -1)] + list(subst), label=label or ('mp::NLWriter2::' + name), nmatches=None),
+             'void harness(void) { vp_one = 1; g_lc = 0; g_lines = 0; %s; VP_REACH("normal return"); }\n' % call]
+    return Harness('C03.writer.line.' + name, 'C03', parts, enforce=fname, stubs=['apr (R22p tokens)'])
+
+
+def line_harnesses():
+    T = lambda *toks: 'LINE1(%d) && ' % len(toks) + ' && '.join('g_l1[%d] == %s' % (i, t) for i, t in enumerate(toks))
+    RET = [(r'return ExprArgWriter\([^;]*\);', 'return;', 1)]
+    hs = []
+    hs.append(h_line('ExprWriter.VPut', W2H, r'void NLWriter2<Params>::ExprWriter::VPut\(\s*int v, const char\* descr\)', 'void VPut(int v, const char *descr)',
+                     '1', 'g_lines == 1 && ' + T("'v'", 'v'), call='VPut(nondet_int(), (const char *)0)'))
+    hs.append(h_line('ExprWriter.FuncPut', W2H, r'NLWriter2<Params>::ExprWriter::FuncPut\(\s*int index, int nArgs, const char\* descr\)', 'void FuncPut(int index, int nArgs, const char *descr)',
+                     '1', 'g_lines == 1 && ' + T("'f'", 'index', 'nArgs'), subst=RET, call='FuncPut(nondet_int(), nondet_int(), (const char *)0)'))
+    for k in (1, 2, 3):
+        hs.append(h_line('ExprWriter.OPut%d' % k, W2H, r'NLWriter2<Params>::ExprWriter::OPut%d\(\s*int opcode, const char\* descr\)' % k, 'void OPut%d(int opcode, const char *descr)' % k,
+                         '1', 'g_lines == 1 && ' + T("'o'", 'opcode'), subst=RET, call='OPut%d(nondet_int(), (const char *)0)' % k))
+    # variable arity: the count line carries the number of arguments the reader will read (for a piecewise-linear term, opcode 64: the number of slopes = half)
+    hs.append(h_line('ExprWriter.OPutN', W2H, r'NLWriter2<Params>::ExprWriter::OPutN\(\s*int opcode, int nArgs, const char\* descr\)', 'void OPutN(int opcode, int nArgs, const char *descr)',
+                     'nArgs >= 0 && (opcode != 64 || nArgs % 2 == 0)',
+                     'g_lines == 2 && ' + T("'o'", 'opcode') + ' && g_lc == 1 && g_lt[0] == (opcode == 64 ? nArgs / 2 : nArgs)', subst=RET, call='OPutN(nondet_int(), nondet_int(), (const char *)0)'))
+    hs.append(h_line('WriteSparseEntry.int', W2H, r'WriteSparseEntry\(File& nm, int i, int v\)', 'void WriteSparseEntry_int(int i, int v)', '1', 'g_lines == 1 && ' + T('i', 'v'),
+                     call='WriteSparseEntry_int(nondet_int(), nondet_int())'))
+    hs.append(h_line('WriteSparseEntry.double', W2H, r'WriteSparseEntry\(File& nm, int i, double x\)', 'void WriteSparseEntry_double(int i, double x)', 'x == x', 'g_lines == 1 && ' + T('i', 'x'),
+                     call='WriteSparseEntry_double(nondet_int(), nondet_double())'))
+    for nm_, flt in (('StartIntSuffix', 0), ('StartDblSuffix', 1)):
+        hs.append(h_line('SuffixWriterFactory.' + nm_, W2H, r'NLWriter2<Params>::SuffixWriterFactory::%s\(\s*const char\* name, int kind, int nnz\)' % nm_, 'void %s(const char *name, int kind, int nnz)' % nm_,
+                         'nnz >= 0 && kind >= 0 && kind <= 7 && ((kind & 4) != 0) == %d' % flt,
+                         '(nnz == 0 ? g_lines == 0 : (g_lines == 1 && ' + T("'S'", 'kind', 'nnz', '-1.0') + ' && g_str == name))',
+                         subst=[(r'return Suffix(?:Int|Dbl)Writer\([^;]*\);', 'return;', 1)], call='%s((const char *)0, nondet_int(), nondet_int())' % nm_))
+    # column sizes: cumulative (k) writes the running sum, plain (K) the size itself
+    hs.append(h_line('ColSizeWriter.Write', W2, r'void Write\(int s\) \{\s*switch\(kind_\)', 'void ColSize_Write(int s)',
+                     's >= 0 && (kind_ == 1 || kind_ == 2) && sum_ <= ((size_t)1 << 40) && nWrt_ >= 0 && nWrt_ < 1000000 && g_sum0 == sum_ && g_n0 == nWrt_',
+                     'g_lines == 1 && LINE1(1) && g_l1[0] == (kind_ == 1 ? (double)(g_sum0 + (size_t)s) : (double)s) && sum_ == (kind_ == 1 ? g_sum0 + (size_t)s : g_sum0) && nWrt_ == g_n0 + 1',
+                     decl='int kind_, nWrt_, g_n0; size_t sum_, g_sum0;\n', call='kind_ = nondet_int(); nWrt_ = nondet_int(); sum_ = nondet_size_t(); g_sum0 = sum_; g_n0 = nWrt_; ColSize_Write(nondet_int())',
+                     label='mp::NLWriter2::ColSizeWriter::Write', extra_assigns=', sum_, nWrt_'))
+    # k / K segment line: the reader insists on num_vars - 1 sizes
+    IFDEF = [(r'#ifdef NL_LIB2_ORIG_HDR[^\n]*\n[\s\S]*?#else[^\n]*\n([\s\S]*?)#endif[^\n]*\n', r'\1', 1)]     # the branch compiled by default
+    hs.append(h_line('WriteColumnSizes', W2H, r'void NLWriter2<Params>::WriteColumnSizes\(\)', 'void WriteColumnSizes(void)',
+                     'g_nv >= 1 && g_nrand == 0 && !g_fed',
+                     '(g_want == 0 ? (g_lines == 0 && !g_fed) : (g_lines == 1 && g_fed && LINE1(2) && g_l1[0] == (g_want == 1 ? \'k\' : \'K\') && g_l1[1] == g_nv - 1))',
+                     pre_subst=IFDEF,
+                     subst=[(r'Feeder\(\)\.WantColumnSizes\(\)', 'g_want', 1), (r'ColSizeWriter csw\(\*this, (\d)\);', r'int csw_kind = \1;', 2),
+                            (r'Feeder\(\)\.FeedColumnSizes\(csw\);', 'vp_feed_colsizes(csw_kind);', 2), (r'csw\.GetNWritten\(\)', 'g_nwritten', 2),
+                            (r'Hdr\(\)\.num_vars', 'g_nv', -1), (r'Hdr\(\)\.num_rand_vars', 'g_nrand', -1)],
+                     decl='int g_want, g_nv, g_nrand, g_nwritten; _Bool g_fed;\n'
+                          '/* the feeder writes exactly num_vars - 1 sizes through a ColSizeWriter of the announced kind (C03.writer.line.ColSizeWriter.Write) */\n'
+                          'static void vp_feed_colsizes(int kind) { __CPROVER_assert(g_lines == 1, "the segment line precedes the sizes"); '
+                          '__CPROVER_assert(kind == g_want, "the size writer works in the mode that was announced (k: cumulative, K: plain)"); g_nwritten = g_nv + g_nrand - 1; g_fed = 1; }\n',
+                     call='g_want = nondet_int(); __CPROVER_assume(g_want >= 0 && g_want <= 2); g_nv = nondet_int(); g_nrand = 0; g_fed = 0; WriteColumnSizes()',
+                     extra_assigns=', g_nwritten, g_fed'))
+    return hs
+
+
+def h_vec_headers(fn, letter, count, feed):
+    """WriteLinearConExpr / WriteObjGradients: one sparse vector per constraint / objective, in order, each announced by `J<i> <nnz>` /
+    `G<i> <nnz>` with the number of entries the feeder then writes.  The header printer is the lambda of the source (its body is kept, R22p);
+    dropped: SingleSparseVecWrtFactory::MakeVectorWriter's dispatch to that printer (the feeder's call is a ghost event)."""
+    parts = [PRE.replace('#include "mp_shim.h"\nint vp_one;\n', '#include "mp_shim.h"\nint vp_one;\n' + C02.header_struct() + C02.HDR_CONSTS), '''
+int g_next; int g_nnz;
+static int vp_nnz(int i) { g_nnz = nondet_int(); __CPROVER_assume(g_nnz >= 0); return g_nnz; }     /* the feeder chooses the number of entries */
+static void VP_EOL(void) {
+  __CPROVER_assert(g_lc == 3 && g_lt[0] == '%s' && g_lt[1] == g_next && g_lt[2] == g_nnz, "vector i is announced as %s<i> <number of entries>, in order");
+  g_lc = 0; g_next++; }
+''' % (letter, letter),
+             Fn(W2H, r'void NLWriter2<Params>::%s\(\)' % fn, 'void %s(void)' % fn,
+                contract='__CPROVER_requires(h_in.%s >= 0 && g_next == 0 && g_lc == 0) __CPROVER_ensures(g_next == h_in.%s) __CPROVER_assigns(g_next, g_nnz, g_lc, __CPROVER_object_whole(g_lt))' % (count, count),
+                subst=[(r'SingleSparseDblVecWrtFactory\s+vwf\(\*this,\s*\[i, this\]\(int nnz\)\{\s*([\s\S]*?)\}\);\s*Feeder\(\)\.%s\(i, vwf\);' % feed, r'{ int nnz = vp_nnz(i); \1 }', 1),
+                       (r'.*', apr_sub(fn, 1), -1), (r'\bHdr\(\)\.', 'h_in.', -1)],
+                loops={0: '__CPROVER_assigns(i, g_next, g_nnz, g_lc, __CPROVER_object_whole(g_lt)) __CPROVER_loop_invariant(0 <= i && i <= h_in.%s && g_next == i && g_lc == 0) __CPROVER_decreases(h_in.%s - i)' % (count, count)},
+                label='mp::NLWriter2::' + fn, nmatches=1),
+             'void harness(void) { vp_one = 1; { NLHeader a; h_in = a; } g_next = 0; g_lc = 0; %s(); VP_REACH("normal return"); }\n' % fn]
+    return Harness('C03.writer.' + fn, 'C03', parts, enforce=fn, loop_contracts=True, expect_loop_obligations=1, stubs=['apr (R22p tokens)', 'feeder (ghost: chooses the number of entries)'])
+
+
 def replay_defvar(lead, inputs, obs):
     import os
     import subprocess
@@ -138,4 +298,5 @@ def harnesses():
     a, b = h_startdefvar(), h_conobj()
     a.replay = replay_defvar
     b.replay = replay_defvar
-    return [a, b]
+    infty_check()
+    return [a, b, h_bounds_roundtrip(False), h_bounds_roundtrip(True)] + line_harnesses() + [h_vec_headers('WriteLinearConExpr', 'J', 'num_algebraic_cons', 'FeedLinearConExpr'), h_vec_headers('WriteObjGradients', 'G', 'num_objs', 'FeedObjGradient')]
